@@ -27,7 +27,24 @@ SPECS = {
     "extract_ranges": "def f(content, ranges):\n    return [content[a:b] for a, b in ranges]",
     "merge_chunk_info": "def f(selected, chunk_offsets):\n    return [(chunk_offsets[i], r) for i, r in selected.items()]",
     "compute_chunk_offsets": "def f(byte_ranges, chunks):\n    return to_offset_size(compute_chunk_ranges(byte_ranges, chunks))",
+    "compute_chunk_ranges": "def f(byte_ranges, chunks):\n    return {n: (min(map(first, r)), max(map(second, r))) for n, r in enumerate(partition_all(chunks, byte_ranges))}",
+    "groupby_chunks": "def f(byte_ranges, chunksize):\n    grouped = groupby(lambda it: it[0] // chunksize, byte_ranges)\n    return {k: [v for _, v in r] for k, r in grouped.items()}",
+    "compute_selected_ranges": """def f(byte_ranges, indexer):
+    n_rows = len(byte_ranges)
+    if isinstance(indexer, int):
+        indexer = [indexer]
+    if isinstance(indexer, slice):
+        selected_rows = range(n_rows)[indexer]
+    else:
+        selected_rows = indexer
+    return list(get(list(selected_rows), list(enumerate(byte_ranges))))""",
 }
+IO_SPECS = {
+    "adjust_offsets": "def f(records, offset):\n    return [_adjust_offset(r, offset) for r in records]",
+    "read_file_descriptor": "def f(f_):\n    return file_descriptor_record.parse(f_.read(720))",
+}
+CHUNKSIZES_SPEC = "lambda records_per_chunk, n_records, n_chunks: [records_per_chunk if records_per_chunk * (index + 1) <= n_records else n_records - records_per_chunk * index for index in range(n_chunks)]"
+NCHUNKS_SPEC = "lambda records_per_chunk, n_records: math.ceil(n_records / records_per_chunk)"
 
 
 def normal_form_equal(fi, spec_src):
@@ -502,6 +519,13 @@ def r8(chk, repo):
         same, got, want = normal_form_equal(fi, spec)
         chk.require(same, "C01-R8", f"{am.relpath}:{name}", f"{name} == specification ({want[:90]})",
                     f"{name} computes {got[:160]} but the specification is {want[:160]}", key=f"spec:{name}", sample={"function": name, "normal form": got[:160]})
+    io = repo.module(IMG_IO)
+    for name, spec in IO_SPECS.items():
+        fi = io.func(name)
+        same, got, want = normal_form_equal(fi, spec)
+        chk.require(same, "C01-R8", f"{io.relpath}:{name}", f"{name} == specification ({want[:90]})",
+                    f"{name} computes {got[:160]} but the specification is {want[:160]}", key=f"spec:{name}")
+    chunk_sizes_spec(chk, repo)
     # span components of compute_chunk_ranges
     cr = am.func("compute_chunk_ranges")
     ret = single_return(cr)
@@ -524,3 +548,29 @@ def r8(chk, repo):
                 f"chunk span lower bound is {tl}: it must be the minimum of the row *starts*", key="span:lower")
     chk.require(hi_ok, "C01-R8", f"{am.relpath}:compute_chunk_ranges", f"chunk span ends at the largest row stop ({th})",
                 f"chunk span upper bound is {th}: it must be the maximum of the row *stops* (rows at the end of a chunk are cut off)", key="span:upper")
+
+
+def chunk_sizes_spec(chk, repo):
+    """read_metadata: number of chunks and the size of each chunk, compared with the reference formula in
+    normal form (comparisons are normalised to `difference <op> 0`)"""
+    from ..symexpr import compare_paths
+    io = repo.module(IMG_IO)
+    rm = io.func("read_metadata")
+    where = f"{io.relpath}:read_metadata"
+    flow = Flow(rm)
+    env = {"records_per_chunk": ("param", 0), "n_records": ("param", 1), "n_chunks": ("param", 2)}
+    for var, spec, stop in (("chunksizes", CHUNKSIZES_SPEC, ("n_chunks", "n_records", "record_size")), ("n_chunks", NCHUNKS_SPEC, ("n_records",))):
+        d = flow.single_def(var)
+        if d is None:
+            raise AnalysisError(f"anchor vanished: {var} in read_metadata")
+        try:
+            got = Canon(dict(env))(flow.expand(d, stop=stop))
+            want = summarize_source(spec)[1][0][1]
+        except Undecidable as e:
+            raise AnalysisError(f"{where}: {var} outside the fragment: {e}")
+        verdict = compare_paths([((), got)], [((), want)])
+        if verdict == "incomparable":
+            raise AnalysisError(f"{where}: {var} = {show(got)[:200]} has a different shape than the reference formula {show(want)[:200]}; equivalence not decidable by normalisation")
+        chk.require(verdict == "equal", "C01-R8", where, f"{var} equals the reference formula ({show(want)[:100]})",
+                    f"{var} = {show(got)[:200]} differs from the reference formula {show(want)[:200]}: some admissible (lines, records_per_chunk) pair is read with wrong chunk sizes",
+                    key=f"spec:read_metadata:{var}", sample={"variable": var, "normal form": show(got)[:160]})
